@@ -432,6 +432,10 @@ impl<T> Rc<T> {
     pub fn try_unwrap(this: Self) -> Result<T, Self> {
         if Rc::strong_count(&this) == 1 {
             unsafe {
+                // `this` is about to give up its allocation without running
+                // `Rc::drop`: unlink it from its adoption peers and destroy
+                // its link table.
+                crate::drop::release_links(&this);
                 let val = ptr::read(&*this); // copy the contained object
 
                 // Indicate to Weaks that they can't be promoted by decrementing
@@ -896,6 +900,10 @@ impl<T: Clone> Rc<T> {
                 let data: &mut MaybeUninit<T> = mem::transmute(Rc::get_mut_unchecked(&mut rc));
                 data.as_mut_ptr().copy_from_nonoverlapping(&**this, 1);
 
+                // The old allocation is given up without running `Rc::drop`:
+                // unlink it from its adoption peers and destroy its link
+                // table.
+                crate::drop::release_links(this);
                 this.inner().dec_strong();
                 // Remove implicit strong-weak ref (no need to craft a fake
                 // Weak here -- we know other Weaks can clean up for us)
